@@ -138,6 +138,16 @@ def make_evaluator(defs: Dict[str, ast.expr],
                                f"different kind (a position with a length, "
                                f"a length with a pure number)")
             return NUM
+        if isinstance(e, ast.BinOp) and isinstance(e.op, ast.Mult) and any(
+                isinstance(x, ast.Attribute) and x.attr == "eps"
+                and isinstance(x.value, ast.Call)
+                and src(x.value.func).endswith("finfo")
+                for x in ast.walk(e)):
+            # machine epsilon times the magnitude of the coordinates: the
+            # round-off of the positions themselves - a length that may
+            # serve as the *floor* of a tolerance (it is the one quantity
+            # that legitimately grows with the distance from the origin)
+            return ("inv", 1)
         if isinstance(e, ast.BinOp):
             a, b = ev(e.left, depth + 1), ev(e.right, depth + 1)
             for v in (a, b):
